@@ -62,7 +62,7 @@ func (c *c11) Setup(w *core.Worker) error {
 	return nil
 }
 
-var c11Alphabet = []string{"a", "b", "e", "1", "0", "/", "_", ":", "=", " ", "[", "]", "-", ".", "x"}
+var c11Alphabet = []string{"a", "b", "e", "1", "0", "/", "_", ":", "=", " ", "[", "]", "-", ".", "x", "é", "\"", "'"}
 
 func c11Val(rng *core.Rng) string {
 	for {
